@@ -90,6 +90,16 @@ inline Profile make_profile(const std::string& prop, const std::string& tier) {
         p.w_cursor = 2;
         p.max_threads = 4;
         p.max_ops = 4;
+    } else if (prop == "C15") {
+        // overwrites of few keys with values of different lengths vs. get / scan / cursor readers
+        p.w_put = 8;
+        p.w_put_unique = 0;
+        p.w_remove = 1;
+        p.w_get = 5;
+        p.w_scan = 3;
+        p.w_cursor = 3;
+        p.max_threads = 4;
+        p.max_ops = 4;
     } else if (prop == "C10") {
         p.w_get = 0;
         p.w_cursor = 6;
@@ -99,7 +109,14 @@ inline Profile make_profile(const std::string& prop, const std::string& tier) {
     return p;
 }
 
-inline std::string value_of(std::uint32_t id) { return vf::value_bytes(id, 4 + id % 9); }
+inline bool g_varied_lengths = false; // C15: overwrites with values of very different lengths
+inline std::string value_of(std::uint32_t id) {
+    if (g_varied_lengths) {
+        static const std::size_t lens[] = {4, 5, 8, 9, 64, 100, 1000, 4096, 7, 33};
+        return vf::value_bytes(id, lens[id % 10]);
+    }
+    return vf::value_bytes(id, 4 + id % 9);
+}
 
 // decode a value observed through a pointer: returns id, or 0xffffffff for null, 0xfffffffe for torn / unknown bytes
 inline std::uint32_t identify(const void* p, std::size_t len, bool have_len, std::uint32_t max_id) {
@@ -171,6 +188,43 @@ inline std::string ctr_key(const std::string& prefix, unsigned x, unsigned width
     std::string k = prefix;
     for (unsigned b = width; b-- > 0;) { k.push_back(static_cast<char>((x >> (8 * b)) & 0xffU)); }
     return k;
+}
+
+// Trigger of the open finding C10/cursor_start_tuple_inserted: key x, inserted while the cursor runs, has the cursor's start
+// tuple at the layer where iscan_findfirst stops (the start key itself, or a key below a link slice of the start key that may not
+// exist when the cursor is opened).
+inline bool start_tuple_conflict(const Scenario& s, const Op& o, const std::string& x) {
+    std::string sk;
+    if (!o.r2l) {
+        sk = o.le == scan_endpoint::INF ? std::string() : o.l;
+    } else {
+        if (o.re == scan_endpoint::INF) {
+            sk = std::string(8, '\xff') + "x"; // starts at the maximum tuple = the link slice FFx8
+        } else {
+            sk = o.r;
+        }
+    }
+    if (x == sk) { return true; }
+    for (std::size_t d = 0; sk.size() > 8 * (d + 1); ++d) {
+        const std::size_t plen = 8 * (d + 1);
+        if (x.size() <= plen || x.compare(0, plen, sk, 0, plen) != 0) { return false; }
+        // x continues below the same link slice at depth d; the link may be absent at open time if no stored key lies below it, or
+        // if some remove in the scenario targets a key below it
+        bool exists = false;
+        if (!s.emptied) {
+            for (auto& k : s.init_keys) {
+                if (k.size() > plen && k.compare(0, plen, sk, 0, plen) == 0) { exists = true; }
+            }
+        }
+        bool removable = false;
+        for (auto& th : s.threads) {
+            for (auto& w : th) {
+                if (w.kind == OpK::Remove && w.key.size() > plen && w.key.compare(0, plen, sk, 0, plen) == 0) { removable = true; }
+            }
+        }
+        if (!exists || removable) { return true; }
+    }
+    return false;
 }
 
 inline Scenario decode(Chooser& c, const Profile& pf, vf::Stats& st, bool record) {
@@ -334,6 +388,25 @@ inline Scenario decode(Chooser& c, const Profile& pf, vf::Stats& st, bool record
             }
             if (o.kind == OpK::Put || o.kind == OpK::PutUnique) { o.wid = id++; }
             s.threads[t].push_back(o);
+        }
+    }
+    // open finding C10/cursor_start_tuple_inserted: a writer inserts the cursor's start tuple.  Excluded by construction in 9 of
+    // 10 cases (the conflicting put is dropped) so that the search continues behind it.
+    for (std::size_t t = 0; t < s.threads.size(); ++t) {
+        for (auto& o : s.threads[t]) {
+            if (o.kind != OpK::Cursor) { continue; }
+            for (std::size_t u = 0; u < s.threads.size(); ++u) {
+                if (u == t) { continue; }
+                auto& ops = s.threads[u];
+                for (std::size_t i = 0; i < ops.size();) {
+                    if ((ops[i].kind == OpK::Put || ops[i].kind == OpK::PutUnique) && start_tuple_conflict(s, o, ops[i].key) && c.range(0, 9) != 0) {
+                        ops.erase(ops.begin() + static_cast<long>(i));
+                        if (record) { ++st.excluded_by_construction; }
+                    } else {
+                        ++i;
+                    }
+                }
+            }
         }
     }
     s.max_id = id;
@@ -509,6 +582,7 @@ inline vf::CaseResult run_case(const vf::RunnerArgs& args, const std::vector<std
     }
     vf::CaseResult res;
     Chooser c(bytes);
+    g_varied_lengths = pf.prop == "C15";
     Scenario sc = decode(c, pf, st, record);
     auto& S = sched::Scheduler::get();
     std::string trace_note;
@@ -736,7 +810,7 @@ inline vf::CaseResult run_case(const vf::RunnerArgs& args, const std::vector<std
                         if (removed_again) { continue; }
                         if (h.inv < r.resp && r.inv < h.resp) { insert_overlapped_scan = true; }
                         if (got.count(h.key) == 0 && !stale) {
-                            failx("insert_neither_seen_nor_stale", "insert of \"" + show(h.key) + "\" (T" + std::to_string(h.thread) + ") is not in the " +
+                            failx(cursor && start_tuple_conflict(sc, o, h.key) ? "cursor_start_tuple_inserted" : "insert_neither_seen_nor_stale", "insert of \"" + show(h.key) + "\" (T" + std::to_string(h.thread) + ") is not in the " +
                                                                          (cursor ? "cursor" : "scan") + " result and every recorded node version is unchanged (recorded=" +
                                                                          std::to_string(r.nvv.size()) + ")");
                         }
@@ -821,6 +895,7 @@ inline vf::CaseResult run_case(const vf::RunnerArgs& args, const std::vector<std
             if (pf.prop == "C01" || pf.prop == "C08" || pf.prop == "C09") { nontrivial = overlap_same_key && S.preemptions > 0; }
             if (pf.prop == "C04" || pf.prop == "C10") { nontrivial = scan_overlapped_writer && S.preemptions > 0; }
             if (pf.prop == "C06") { nontrivial = insert_overlapped_scan && S.preemptions > 0; }
+            if (pf.prop == "C15") { nontrivial = (overlap_same_key || scan_overlapped_writer) && S.preemptions > 0; }
             st.cls("shape_" + sc.family);
             st.cls(overlap_same_key ? "overlap_same_key" : "no_overlap_same_key");
             if (S.spin_blocks > 0) { st.cls("spin_blocked"); }
